@@ -129,6 +129,7 @@ func (ba *badgerBatch) VisitCleanNode(ptr *node.Pointer, parent *node.Pointer) e
 	wasRootNode := iptr.isRoot()
 	isRootNode := parent == nil
 	if wasRootNode != isRootNode {
+		ba.saveDbPtr(ptr)
 		ptr.DBInternal = nil
 		needsPutNode = true
 
@@ -151,6 +152,7 @@ func (ba *badgerBatch) VisitCleanNode(ptr *node.Pointer, parent *node.Pointer) e
 		}
 	}
 	if wasInvalid && !isInvalid {
+		ba.saveDbPtr(ptr)
 		ptr.DBInternal = nil
 		needsPutNode = true
 
@@ -171,6 +173,17 @@ func (ba *badgerBatch) VisitDirtyNode(ptr *node.Pointer, parent *node.Pointer) e
 	return ba.refreshDbPtr(ptr, parent)
 }
 
+// saveDbPtr remembers the pointer's current database pointer before the batch changes it so that
+// it can be restored in case the batch is not committed.
+func (ba *badgerBatch) saveDbPtr(ptr *node.Pointer) {
+	if ba.origDbPtrs == nil {
+		ba.origDbPtrs = make(map[*node.Pointer]node.DBPointer)
+	}
+	if _, ok := ba.origDbPtrs[ptr]; !ok {
+		ba.origDbPtrs[ptr] = ptr.DBInternal
+	}
+}
+
 // refreshDbPtr recomputes the data for the internal database pointer.
 func (ba *badgerBatch) refreshDbPtr(ptr *node.Pointer, parent *node.Pointer) error {
 	if ptr.DBInternal == nil {
@@ -185,6 +198,7 @@ func (ba *badgerBatch) refreshDbPtr(ptr *node.Pointer, parent *node.Pointer) err
 			index = ba.lastIndex.Add(1)
 		}
 
+		ba.saveDbPtr(ptr)
 		ptr.DBInternal = &dbPtr{
 			version: ba.version,
 			index:   index,
